@@ -61,12 +61,22 @@ structure TconvOut where
   pad : Nat × Nat × Nat × Nat        -- top, left, bottom, right
 deriving Repr, DecidableEq, Inhabited
 
+/-- stride 1x1 (no upscaling): the padding of the convolution with the reversed kernel is the mirror image of the forward
+    convolution's padding — what repair C01-50 computes (`calc_transposed_padding_and_skirt`). The unrepaired code used
+    `calc_padding_and_skirt`: `((k - 1) / 2, k / 2)` for SAME, `(0, 0)` for VALID (`forwardPadAxis`). -/
+def transposedPadAxis (same : Bool) (k : Nat) : Nat × Nat := if same then (k / 2, (k - 1) / 2) else (k - 1, k - 1)
+
+def forwardPadAxis (same : Bool) (k : Nat) : Nat × Nat := if same then ((k - 1) / 2, k / 2) else (0, 0)
+
 def lowerTconv (same : Bool) (kh kw sy sx H W OH OW : Nat) : Option TconvOut :=
   let fix := fixupConv2dBackprop sy sx
   if H = 0 ∨ W = 0 then none else
   if fix.transposeUpscale then
     (calcUpscaledPadding same kh kw fix.strideY fix.strideX H W (OH / H) (OW / W)).map fun p => ⟨fix, p⟩
-  else none   -- stride 1x1: ordinary padding (`calc_padding_and_skirt`), not part of this model
+  else
+    let (t, b) := transposedPadAxis same kh
+    let (l, r) := transposedPadAxis same kw
+    some ⟨fix, (t, l, b, r)⟩
 
 /-! ## 9. Grouped convolution -/
 
